@@ -42,5 +42,29 @@ claim("C08",
   "Not decided: kernel enforcement of limits, CPU accounting accuracy, 'never blocks the writer' beyond the drain being unconditionally reached.",
   "DESIGN.md §4 C08")
 
-for pid in ["C02","C03","C10","C11","C12","C13","C14","C15","C16","C17","C18","C19","C20"]:
+claim("C03",
+  "conditional constant propagation over the tracer's dispatch; who-may-call over register-writing primitives; const-arg rule on ptrace options; dominance rule; E1 guard formulas for the child order",
+  "Decides: Ban/Kill/Allow dispatch of the trap handler and of the runner's handler (Ban always through the helper that sets −BanRet, unknown verdicts and syscall numbers kill), the skip helper's register rewrite and write-back per architecture (arm64/arm in the thorough tier), that registers are written only from the Ban arm, PTRACE_SETOPTIONS ⊇ SECCOMP|EXITKILL|FORK|VFORK|CLONE|EXEC at the first stop of every pid before it is continued, traps handled only after the exec event, the child's TRACEME < SIGSTOP < filter load (exactly once iff given) < exec for all configurations, and KILL_PROCESS as the fail-closed filter action.",
+  "Not decided: that the kernel skips a syscall numbered −1, tracer/tracee event ordering, architectures without a register file in ptracer/.",
+  "DESIGN.md §4 C03")
+
+claim("C13",
+  "guarded-by / loop-coverage rules on the reset and removal loops, ordered-call and const-arg rules on the memfd copier, E1 guard formulas for the exec variant",
+  "Decides: Reset covers every configured tmpfs mount (skip only on !IsTmpFs), clears '/'+Target, reports failures; the removal helper lists all entries and removes each one unconditionally, returning the last error; the memfd copier creates with ALLOW_SEALING|CLOEXEC, copies the caller's reader itself, adds SEAL|SHRINK|GROW|WRITE, rewinds, in this order with every failure closing the file; an exec descriptor is executed with execveat(fd, \"\", …, AT_EMPTY_PATH) in the first attempt and the retry loop.",
+  "Not decided: kernel seal semantics; entries the container init lacks permission to remove; writable bind mounts (host directories, not reset by design).",
+  "DESIGN.md §4 C13")
+
+claim("C14",
+  "path rule over loop iterations by control-dependence formulas (exactly one outcome per item), callee-identity and dominance rules, cursor typestate, allocation-site rule for decode targets",
+  "Decides: one error slot per request; per item exactly one of error-in-slot / descriptor+keep-alive entry; the descriptor sent belongs to the file just opened; Lstat-based regular-file pre-check on the same path before the open, accepting only not-exist or regular; host-side length check, cursor advancing once per success, close-on-exec before wrapping, naming by request i, cleanup of unconsumed descriptors; fresh decode target per message in both receive loops.",
+  "Not decided: non-emptiness of OS error strings (assumed), the window between Lstat and open, symlinked intermediate components.",
+  "DESIGN.md §4 C14")
+
+claim("C18",
+  "conditional constant propagation (refusal discipline, counter, dispatch), lookup-set extraction per predicate, guard formulas on the matcher's lookups",
+  "Decides the wiring around the matcher and its skeleton: matching predicate on the same path per access class, soft-ban/kill refusal, cascade writable⊂readable⊂statable as the complete lookup set of each predicate, counter decrement-by-one with a non-negative monotone threshold, CheckSyscall's table, and in IsInSetSmart: exact match first, children entries only at depth one, directory entries at every depth, level counter 0/+1, walk to the parent.",
+  "NOT decided: that IsInSetSmart admits exactly the covered paths for all sets × paths up to depth 4 (value-level behaviour of a string algorithm; a bounded enumeration would be testing). Only the structural skeleton above is claimed.",
+  "DESIGN.md §4 C18")
+
+for pid in ["C02","C10","C11","C12","C13","C14","C15","C16","C17","C18","C19","C20"]:
     na(pid, "check under construction in this session (design in DESIGN.md section 4); not yet claimed")
